@@ -1,5 +1,6 @@
 """C16, C17, C18: hooked socket I/O loops. Spec: NioOps.tla, NioSyscall.tla (MC_Nio.tla), Trace_Nio.tla.
-Driver: nio (scripted kernel through the fn_ptr seam, one process per scenario)."""
+Driver: nio (scripted kernel through the fn_ptr seam, one process per scenario).
+C18 also: connect / accept / accept4 - NioConn.tla, Trace_Conn.tla, driver conn."""
 import random
 
 from vlib import *  # noqa
@@ -33,11 +34,84 @@ def calls_for(sc):
     return ["sendmsg"] if sc["msg"] else ["writev"]
 
 
+CONN_GEN = """SPECIFICATION Spec
+CONSTANTS
+  MaxCalls = %d
+  Deviations = {"nonblock_waits"}
+INVARIANTS DumpScript
+CHECK_DEADLOCK FALSE
+"""
+CONN_CLAUSES = {"nonblock_waited", "nonblock_errno", "mode_changed"}
+CONN_NOTES = {"asked_blocking", "conn_result"}
+
+
+def conn_stage(v, wd, tier, cov, bindir):
+    """C18 for the calls that establish connections: connect, accept, accept4 (NioConn.tla, Trace_Conn.tla, driver conn)"""
+    thorough = tier == "thorough"
+    mc_runs("NioConn", [("MC_NioConn.cfg", None), ("MC_NioConn_nonblock_waits.cfg", "NonblockNeverWaits"),
+                        ("MC_NioConn_mode_not_restored.cfg", "ModeRestored"), ("MC_NioConn_asks_blocking.cfg", "NeverAsksBlocking")], tier, cov)
+    # every behaviour of the permissive variant (waits on a non-blocking descriptor are generated too: the code decides)
+    cases, _ = tlc_replays("NioConn", CONN_GEN % (4 if thorough else 3), "all", timeout=600)
+    cov["conn_tlc_behaviours"] = len(cases)
+    scs = []
+    for c in cases:
+        kinds = [x["k"] for x in c["script"]]
+        for call in (["connect"] if c["call"] == "connect" else ["accept", "accept4"]):
+            for where in ("thread", "co"):
+                for rep in range(3 if thorough else 1):
+                    scs.append({"call": call, "nonblock": c["nonblock"], "limited": c["limited"], "script": c["script"], "where": where,
+                                "kinds": " ".join(kinds), "src": "tlc"})
+    for i, s in enumerate(scs):
+        s["id"] = i + 1
+        s["errno_entry"] = [0, 4, 11, 115][i % 4]
+        s["timeout_ms"] = 6000
+    tpath = drive(bindir, "conn", scs, wd, "creset", "cend", timeout=3000, tag="_conn")
+    info = validate_full("Trace_Conn", tpath)
+    byid = {s["id"]: s for s in scs}
+    notes = {}
+    for x in info["viols"]:
+        sc = byid.get(x[2], {})
+        rec = {"clause": x[1], "scenario_id": x[2], "trace_index": x[0], "detail": x[3] if len(x) > 3 else None,
+               "call": sc.get("call"), "family": "conn", "nonblock": sc.get("nonblock"), "script_kinds": sc.get("kinds"),
+               "where": sc.get("where"), "driver": "conn", "scenario": sc}
+        if x[1] in CONN_CLAUSES | DEATH:
+            v.add(rec)
+        else:
+            notes[x[1]] = notes.get(x[1], 0) + 1
+    if notes:
+        v.note("connect / accept: observations outside the listed properties: %s" % notes)
+    seg = first_segment(tpath, "creset", "cend", want=lambda s: s[0].get("nonblock") and any(r.get("ev") == "inner_r" and r.get("resp") == "pending" for r in s))
+    if seg:
+        # the binding: a recorded wait, a changed mode, another error number must each be rejected
+        c1 = []
+        for r in seg:
+            c1.append(dict(r))
+            if r.get("ev") == "inner_r":
+                c1.append({"ev": "fd_wait", "kind": "r", "own": True})
+        c2 = [dict(r) for r in seg]
+        for r in c2:
+            if r.get("ev") == "call_e":
+                r["fl_nonblock"] = not r["fl_nonblock"]
+        c3 = [dict(r) for r in seg]
+        for r in c3:
+            if r.get("ev") == "call_e":
+                r["errno"] = 5
+        cov["conn_selftest"] = selftest_mutations("Trace_Conn", wd, {"conn_insert_wait": c1, "conn_flip_mode": c2, "conn_corrupt_errno": c3})
+    calls = {}
+    for s in scs:
+        calls[s["call"]] = calls.get(s["call"], 0) + 1
+    cov["conn_scenarios_by_call"] = calls
+    cov["conn_trace_records"] = info["total"]
+    cov["traces_validated_against_impl"] = cov.get("traces_validated_against_impl", 0) + len(scs)
+    return scs
+
+
 def run(pid, tier):
     v = Verdict(pid, tier)
     wd = workdir(pid)
     cov = {}
     bindir = build_harness()
+    conn_scs = conn_stage(v, wd, tier, cov, bindir) if pid == "C18" else []
     insts = [("MC_Nio.cfg", None)] + [("MC_Nio_%s.cfg" % d, "any") for d in DEVS]
     mc_runs("MC_Nio", insts, tier, cov)
     thorough = tier == "thorough"
@@ -106,11 +180,13 @@ def run(pid, tier):
     for s in scs:
         calls[s["call"]] = calls.get(s["call"], 0) + 1
     cov["scenarios_by_call"] = calls
-    cov["traces_validated_against_impl"] = len(scs)
+    cov["traces_validated_against_impl"] = cov.get("traces_validated_against_impl", 0) + len(scs)
     cov["trace_records"] = info["total"]
     cov["samples"] = [scs[0], scs[-1]]
-    cov["clauses_checked"] = sorted(CLAUSES[pid])
+    cov["clauses_checked"] = sorted(CLAUSES[pid] | (CONN_CLAUSES if pid == "C18" else set()))
     cov["exhaustive"] = thorough
     return v.finish(cov, assumptions=["the scripted kernel is reached through the fn_ptr parameter of open_coroutine_core::syscall::*; "
                                       "is_socket, fcntl and getsockopt act on a real socketpair",
-                                      "each would-block costs a real wait of at most 10 ms; a 'timeout' step is a 40 ms SO_RCVTIMEO/SO_SNDTIMEO"])
+                                      "each would-block costs a real wait of at most 10 ms; a 'timeout' step is a 40 ms SO_RCVTIMEO/SO_SNDTIMEO"] +
+                    (["connect / accept / accept4 run on loopback TCP sockets; the kernel call itself is scripted, the wait for readiness, "
+                      "getpeername and SO_ERROR are real"] if pid == "C18" else []))
